@@ -6,9 +6,9 @@ from props.common import conc
 CF = ['-DURCU_VERIF_WFCQ_ADAPT_ATTEMPTS=2']
 
 
-def ob(name, scen, deq, threads, R, tso=0, desc='', wit=None, unwind=3, timeout=900):
+def ob(name, scen, deq, threads, R, tso=0, desc='', wit=None, unwind=3, timeout=900, pre=None):
     return conc(name, 'c10_wfcq.c', threads, R, cflags=['-DSCEN=%d' % scen, '-DDEQ=%d' % deq] + CF, tso=tso, unwind=unwind,
-                desc=desc, wit=wit, timeout=timeout,
+                desc=desc, wit=wit, timeout=timeout, **({'pre': pre} if pre else {}),
                 solo_order=[i + 1 for i, f in enumerate(threads)] + [i + 1 for i, f in enumerate(threads) if f.startswith('c')])
 
 
@@ -29,6 +29,11 @@ def obligations(tier):
                   wit=['splice moved nodes into an empty destination', 'splice found the source empty',
                        'second splice appended behind existing nodes']))
     obs += (ob('splice_nonblocking', 2, 1, ['p1', 'p2', 'c1'], R, desc='same with __cds_wfcq_splice_nonblocking first'))
+    obs += (ob('splice_mutex_2consumers', 7, 0, ['p1', 'c1', 'c2'], R, pre=['prologue', 'prologue2'],
+                  desc='locked API: cds_wfcq_splice_blocking(dest, src) vs a second consumer of src that peeks and dequeues under '
+                       'cds_wfcq_dequeue_lock(src) and through cds_wfcq_dequeue_blocking(src), with an enqueuer on src',
+                  wit=['locked splice moved nodes', 'second consumer dequeued from the source under its lock',
+                       'second consumer found the source already spliced out']))
     obs += (ob('iter_for_each_safe', 3, 1, ['p1', 'p2', 'c1'], R, desc='__cds_wfcq_for_each_blocking_safe (first/next) while producers enqueue', unwind=6,
                   wit=['iteration saw all three nodes', 'iteration saw one node']))
     obs += (ob('empty_observer', 5, 0, ['p1', 'c1', 'c2'], R, desc='cds_wfcq_empty() by a third thread vs producer and consumer',
